@@ -148,6 +148,16 @@ macro_rules! views {
 }
 
 macro_rules! projections {
+    // the Vec3A forms (f32 Mat4 only) must agree bit-for-bit with the Vec3 forms
+    (@p3a Mat4, $acc:ident, $tn:ident, $m:expr, $p:expr, $want:expr, $ctx:ident) => {{
+        let pa = <Vec3A as harness::flat::Flat>::build(&$p.to_array());
+        let g = $m.project_point3a(pa);
+        let w: [f64; 3] = $want;
+        if [g.x as f64, g.y as f64, g.z as f64] != w && !(g.is_nan() && w.iter().any(|x| x.is_nan())) {
+            $acc.fail(&format!("{}::project_point3a", $tn), format!("{} p={:?} Vec3A form {:?} differs from the Vec3 form {:?}", $ctx(), $p, g, w));
+        }
+    }};
+    (@p3a $M:ident, $acc:ident, $tn:ident, $m:expr, $p:expr, $want:expr, $ctx:ident) => {};
     ($rep:ident, $M:ident, $S:ident, $eps:expr, $V3:ident) => {{
         let eps: f64 = $eps;
         let tn = stringify!($M);
@@ -197,6 +207,22 @@ macro_rules! projections {
                 let wantp = [clip[0] / clip[3], clip[1] / clip[3], clip[2] / clip[3]];
                 let got = m.project_point3(pv3);
                 let gp = [got.x as f64, got.y as f64, got.z as f64];
+                projections!(@p3a $M, acc, tn, m, pv3, gp, ctx);
+                // a projection * view product has w_axis.w != 0: the divide must use the full w
+                {
+                    let view = <$M>::look_at_rh(<$V3>::new(1.0, 2.0, 3.0), <$V3>::new(0.0, 0.5, -1.0), <$V3>::Y);
+                    let pvw = m * view;
+                    let gw = cols4(&pvw);
+                    let cl = gw.mulv(&ps);
+                    let scw = gw.mulv_abs(&ps);
+                    if cl[3].abs() > 1e-3 * scw[3] {
+                        let w3 = [cl[0] / cl[3], cl[1] / cl[3], cl[2] / cl[3]];
+                        let g3 = pvw.project_point3(pv3);
+                        let bw: Vec<f64> = (0..3).map(|i| 12.0 * eps * (scw[i] / cl[3].abs() + w3[i].abs() * scw[3] / cl[3].abs())).collect();
+                        env_vec(acc, &format!("{tn}::project_point3(projection*view)"), &[g3.x as f64, g3.y as f64, g3.z as f64], &w3, &bw, &|| format!("{} p={:?}", ctx(), ps));
+                        projections!(@p3a $M, acc, tn, pvw, pv3, [g3.x as f64, g3.y as f64, g3.z as f64], ctx);
+                    }
+                }
                 let bp: Vec<f64> = (0..3).map(|i| 12.0 * eps * (sc[i] / clip[3].abs() + wantp[i].abs() * sc[3] / clip[3].abs())).collect();
                 acc.eval(true, gp[0].to_bits() ^ gp[2].to_bits().rotate_left(9));
                 env_vec(acc, &format!("{tn}::project_point3"), &gp, &wantp, &bp, &|| format!("{} p={:?}", ctx(), ps));
@@ -247,6 +273,11 @@ macro_rules! projections {
                 let gp = [got.x as f64, got.y as f64, got.z as f64];
                 let bp: Vec<f64> = (0..3).map(|i| 10.0 * eps * sc[i]).collect();
                 env_vec(acc, &format!("{tn}::transform_point3"), &gp, &wantp[..3], &bp, &|| format!("{} p={:?}", ctx(), ps));
+                // an orthographic matrix has clip w = 1: project_point3 equals transform_point3
+                let gq = m.project_point3(p);
+                let bq: Vec<f64> = bp.iter().map(|b| b * 2.0).collect();
+                env_vec(acc, &format!("{tn}::project_point3(orthographic)"), &[gq.x as f64, gq.y as f64, gq.z as f64], &wantp[..3], &bq, &|| format!("{} p={:?}", ctx(), ps));
+                projections!(@p3a $M, acc, tn, m, p, [gq.x as f64, gq.y as f64, gq.z as f64], ctx);
                 let gv = m.transform_vector3(p);
                 let wv = g.mulv(&[ps[0], ps[1], ps[2], 0.0]);
                 let sv = g.mulv_abs(&[ps[0], ps[1], ps[2], 0.0]);
